@@ -231,6 +231,7 @@ pub fn units(tier: Tier, _seed: u64) -> Vec<Unit> {
         let k = n + 3;
         u.push(unit!(format!("C11/EFT({n},Echo)/k={k}"), fisher(n, k, VK::Echo)));
         if n <= 3 { u.push(unit!(format!("C11/EFT({n},Ema(2))/k={k}"), fisher(n, k, VK::Ema(2)))); }
+        if n == 2 { u.push(unit!(format!("C11/EFT({n},SuperSmoother(2))/k={}", k + 1), fisher(n, k + 1, VK::SuperSmoother(2)))); }
     }
     for &n in &(if q { vec![3usize, 4] } else { vec![3usize, 4, 5, 6] }) {
         let k = n + 3;
